@@ -1,6 +1,6 @@
 (* C12 - in multi-module output every cross-module reference resolves inside the package.
    Statements only; proofs in proofs/RelativeProofs.v. *)
-From DMCG Require Import Relative RelativeProofs.
+From DMCG Require Import Relative RelativeProofs Layout LayoutProofs.
 Open Scope N_scope.
 
 (* For every importing module path, every referenced module path and class name, both import styles,
@@ -47,6 +47,33 @@ Proof.
   congruence.
 Qed.
 
+(* The two statements above are about the idealised rule is_init ("a key with a descendant is a package").  The
+   generator's own procedure is Layout.layout (deepest key first, packages between two consecutively processed
+   keys visited too, a key is a package iff its directory was registered before it is reached); it is tied to the
+   code by the layout correspondence.  For that procedure: a key with a key exactly one level below it among
+   the module keys is written as a package, for every set of module keys ... *)
+Theorem C12_child_makes_package :
+  forall M m c, In m M -> In c M -> c <> [] -> lay_parent c = m -> m <> [] ->
+    lookup_pkg (layout M) m = Some true.
+Proof. exact child_makes_package. Qed.
+
+(* ... hence no module file is shadowed by a directory whenever every key that has a descendant also has a child
+   among the keys (partial: the premise is what the generator's procedure needs) ... *)
+Theorem C12_layout_no_shadow_partial :
+  forall M, child_closed M -> layout_sound M = true.
+Proof. exact child_closed_sound. Qed.
+
+(* ... and the full statement is false of the faithful model: a, a.b.c and an unrelated x.y leave a as a.py next
+   to the directory a/ (known finding C12-shadow; with x in place of x.y the package a.b is visited and a is a
+   package, LayoutProofs.layout_between_example) *)
+Theorem C12_layout_shadow_refuted :
+  exists M m m', In m M /\ In m' M /\ strict_prefix m m' = true /\ lookup_pkg (layout M) m = Some false.
+Proof. exists [[1]; [1; 2; 3]; [4; 5]], [1], [1; 2; 3]. exact layout_shadow_witness. Qed.
+
+Example C12_child_closed_example :
+  layout_sound [[1]; [1; 2]; [1; 2; 3]; [4; 5]; []] = true /\ lookup_pkg (layout [[1]; [1; 2]; [4]]) [1] = Some true.
+Proof. vm_compute. split; reflexivity. Qed.
+
 (* non-vacuity: sibling, cousin, ancestor and root references are inside the guard *)
 Example C12_guard_examples :
   guard false false false [1; 2] [1; 3] = true /\ guard true false false [1; 2; 4] [3; 5] = true
@@ -59,3 +86,6 @@ Print Assumptions C12_init_descendant_refuted.
 Print Assumptions C12_exact_ancestor_refuted.
 Print Assumptions C12_descendant_forces_init.
 Print Assumptions C12_no_file_dir_shadow.
+Print Assumptions C12_child_makes_package.
+Print Assumptions C12_layout_no_shadow_partial.
+Print Assumptions C12_layout_shadow_refuted.
